@@ -289,6 +289,12 @@ class InMemoryStorage(BaseStorage):
                 self._update_cache(trial_id, study_id)
             else:
                 self._set_trial(trial_id, trial)
+                if state == TrialState.WAITING:
+                    # Keep the WAITING trial visible to `get_all_trials(states=(WAITING,))`.
+                    study_id = self._trial_id_to_study_id_and_number[trial_id][0]
+                    self._prev_waiting_trial_number[study_id] = min(
+                        self._prev_waiting_trial_number[study_id], trial.number
+                    )
 
             return True
 
